@@ -9,11 +9,33 @@ Proof.
   destruct (x =? 0); auto. f_equal; apply IH.
 Qed.
 
-Lemma tagstr_repaired : forall t t' h, cstr (read_tag repaired t h) = cstr (read_tag repaired t' h).
-Proof. intros; unfold read_tag; cbn [tag_at_gcount repaired]. rewrite !cstr_firstn_app0; reflexivity. Qed.
+Lemma firstn_len_firstn_app : forall (h : list Z) m r, firstn (length h) (firstn m (h ++ r)) = firstn m h.
+Proof.
+  induction h as [|x t IH]; intros m r.
+  - simpl. destruct m; reflexivity.
+  - destruct m; simpl; [reflexivity | f_equal; apply IH].
+Qed.
+
+(* the string handed to identify no longer depends on the previous content of the static buffer *)
+Lemma tagstr_repaired : forall t t' h,
+  tag_string repaired (read_tag repaired t h) h = tag_string repaired (read_tag repaired t' h) h.
+Proof. intros; unfold tag_string, read_tag; cbn [whole_tag tag_at_gcount repaired]. rewrite !firstn_len_firstn_app; reflexivity. Qed.
+
+(* it is the tag of C07's front-end model (Maths/IOFront.v): the first min(32,size) bytes of the file *)
+Lemma tagstr_is_IOFront_tag : forall t bytes,
+  tag_string repaired (read_tag repaired t (firstn 32 bytes)) (firstn 32 bytes) = fst (Maths.IOFront.read_tag bytes).
+Proof.
+  intros t bytes. unfold tag_string, read_tag, Maths.IOFront.read_tag; cbn [whole_tag tag_at_gcount repaired fst].
+  rewrite firstn_len_firstn_app. rewrite firstn_firstn, Nat.min_id.
+  unfold Maths.IOFront.TAGSIZE.
+  destruct (Z.min_spec 32 (Z.of_nat (length bytes))) as [[Hlt ->]|[Hge ->]].
+  - reflexivity.
+  - rewrite Nat2Z.id. rewrite firstn_all. apply firstn_all2. lia.
+Qed.
 
 Local Arguments read_tag : simpl never.
 Local Arguments cstr : simpl never.
+Local Arguments tag_string : simpl never.
 Local Arguments identify : simpl never.
 Local Arguments head_of : simpl never.
 Local Arguments rd_of : simpl never.
@@ -42,7 +64,7 @@ Proof.
   intros W k n. eqv_start. unfold op_read, get_current; simpl.
   destruct pe; simpl; (destruct (nth n fs ENoDir) as [| |ct]; simpl; [split; auto; split; auto | split; auto; split; auto | ]);
     rewrite (tagstr_repaired t t');
-    (destruct cu as [g|]; [destruct (identify g _) | destruct (find _ (w_ios W))]); simpl; split; auto; split; auto.
+    (destruct cu as [g|]; [destruct (identify _ g _) | destruct (find _ (w_ios W))]); simpl; split; auto; split; auto.
 Qed.
 
 Lemma op_write_respects : forall W k n, respects (op_write repaired W k n).
@@ -59,7 +81,7 @@ Proof.
   intros W n. eqv_start. unfold op_info; simpl.
   destruct (nth n fs ENoDir) as [| |ct]; simpl; [split; auto; split; auto | split; auto; split; auto | ].
   rewrite (tagstr_repaired t t').
-  destruct cu as [g|]; [destruct (identify g _) | destruct (find _ (w_ios W))]; simpl; split; auto; split; auto.
+  destruct cu as [g|]; [destruct (identify _ g _) | destruct (find _ (w_ios W))]; simpl; split; auto; split; auto.
 Qed.
 
 Lemma set_from_suffix_respects : forall W n, respects (set_from_suffix W n).
@@ -121,7 +143,7 @@ Lemma op_read_consumes : forall W k n, consumes (op_read repaired W k n).
 Proof.
   intros W k n [[cu pe t] fs] Hp; simpl in Hp; subst pe. unfold op_read, get_current; simpl.
   destruct (nth n fs ENoDir) as [| |ct]; simpl; try (split; reflexivity).
-  destruct cu as [g|]; [destruct (identify g _) | destruct (find _ (w_ios W))]; simpl; split; reflexivity.
+  destruct cu as [g|]; [destruct (identify _ g _) | destruct (find _ (w_ios W))]; simpl; split; reflexivity.
 Qed.
 
 Lemma op_write_consumes : forall W k n, consumes (op_write repaired W k n).
@@ -271,7 +293,7 @@ Proof. vm_compute. congruence. Qed.
 
 (* each repair alone removes its own witness, and only its own *)
 Lemma io_fix_open_only :
-  let c := {| consume_before_open := true; tag_at_gcount := false |} in
+  let c := {| consume_before_open := true; tag_at_gcount := false; whole_tag := false |} in
   snd (inproc_after c Wref [Load KMat 0%nat] (Load KVec 1%nat) fsref) = snd (fresh_after c Wref [Load KMat 0%nat] (Load KVec 1%nat) fsref)
   /\ snd (inproc_after c Wref [Load KMat 2%nat] (Load KMat 3%nat) fsref) <> snd (fresh_after c Wref [Load KMat 2%nat] (Load KMat 3%nat) fsref).
 Proof. vm_compute. split; congruence. Qed.
